@@ -40,7 +40,7 @@ META = {
             "changing (almost) every cycle; 1-4 captures each followed by read-back in random order; trigger storms during capture, "
             "held triggers, re-trigger in the first idle cycle, re-trigger before/while reading back",
 }
-TIERS = {"quick": {"runs": 2000, "wall": 70}, "thorough": {"runs": 70000, "wall": 900}}
+TIERS = {"quick": {"runs": 6000, "wall": 70}, "thorough": {"runs": 70000, "wall": 900}}
 
 OFFSETS = (0, 1, 2)
 SLACK = 4
